@@ -57,22 +57,23 @@ EXTRA = {
     "ipaddr-or-hostname": ["1:2:3:4:5:6:7::", "::2:3:4:5:6:7:8", "1:2:3:4:5:6:7:8", "1:2:3:4:5:6:7:8:9", "2001:DB8:1:2:3:4:5::",
                            "fe80::1:2:3:4", "::ffff:1.2.3.4", "1::2::3", "12345::", "255.255.255.255", "256.1.1.1",
                            "1.2.3.4.5", "host-name.Example.COM", "a.b.c.d.e.f.g", "-leading.dash", "trailing.dot.",
-                           "under_score.ok", "1.2.3", "01.2.3.4", "1.2.3.04", ":::", "::1::", "g::1"],
+                           "under_score.ok", "1.2.3", "01.2.3.4", "1.2.3.04", ":::", "::1::", "g::1", "127.0.0.1\n", "host.name\n", "::1\n"],
     "port-number": ["65535", "65536", "000080", "+65535", "-0", "6_5_5", " 80 ", "99999999999999999999"],
     "byte-size": ["1024KB", "12gB", "007mb", "4294967296", "1kbkb", "1 kb", "-5MB", "1_0kb", "12bk", "9999999999999gb"],
     "time-interval": ["86400", "36h", "7D", "1d1", "12ms", "0s", "-3m", "1_0m", "5 m", "99999999999d"],
     "integer": ["123456789012345678901234567890", "-000", "+1_000", "1__0", "_1", "1_", " 12\t", "0x1f", "1e3"],
     "inet-address": ["[::1]:80", "[fe80::1]:8080", "[::1]", "[::1]:", "[::1]:99999", "Host.Example:443", "host:", ":8080",
-                     "1.2.3.4:80", "::1", "fe80::1", "[FE80::A]:1", "host:80:90", "[host]:80", "[]:80", "[::1]x:80"],
-    "inet-binding-address": ["[::1]:80", ":8080", "8080", "Host:1", "[FE80::A]:1", "::"],
-    "inet-connection-address": ["[::1]:80", ":8080", "8080", "Host:1", "[FE80::A]:1", "::"],
+                     "1.2.3.4:80", "::1", "fe80::1", "[FE80::A]:1", "host:80:90", "[host]:80", "[]:80", "[::1]x:80", "[]:"],
+    "inet-binding-address": ["[::1]:80", ":8080", "8080", "Host:1", "[FE80::A]:1", "::", "[]:80", "[]:"],
+    "inet-connection-address": ["[::1]:80", ":8080", "8080", "Host:1", "[FE80::A]:1", "::", "[]:80", "[]:"],
     "socket-address": ["/var/run/x.sock", "relative/path", "[::1]:80", "1.2.3.4:80", "Host:80", "8080", "fe80::1"],
     "boolean": ["yes", "YES", "tRuE", "off", "0", "1", "y", "yess", " on", "fal\u017fe", "ye\u017f"],
     "timedelta": ["1w2d3h4m5s", "1.5h", "2d 3h", "1w 1w", "5x", "3", "1e1s", "h", "-1d", "1d2d", "1S", "4m3w"],
-    "identifier": ["a" * 40, "_" * 20 + "1", "A1b2C3d4e5", "caf\u00e9", "x\u212a"],
-    "basic-key": ["a" * 40, "a-b.c_d-e.f", "Z9.-_", "x\u212a", "\u212a1"],
-    "dotted-name": ["a.b.c.d.e.f.g.h", "a..b", "a.b.", ".a.b", "a.1b", "A_1.B_2"],
-    "dotted-suffix": [".a.b.c.d", "a.b.c.d", "..a", ".a..b", ".a.", ".1a"],
+    # (a text that ends in a line feed is not of the documented shape: '$' in a pattern also matches before it)
+    "identifier": ["a" * 40, "_" * 20 + "1", "A1b2C3d4e5", "caf\u00e9", "x\u212a", "abc_1\n", "a\n\n"],
+    "basic-key": ["a" * 40, "a-b.c_d-e.f", "Z9.-_", "x\u212a", "\u212a1", "Abc\n", "\nabc"],
+    "dotted-name": ["a.b.c.d.e.f.g.h", "a..b", "a.b.", ".a.b", "a.1b", "A_1.B_2", "a.b\n"],
+    "dotted-suffix": [".a.b.c.d", "a.b.c.d", "..a", ".a..b", ".a.", ".1a", ".a.b\n"],
 }
 
 
